@@ -151,6 +151,24 @@ CHECKS['C20'] = dict(
          'element is a WormGear flagged self-locking; elements and self_locking are setter-less properties returning fields that '
          'nothing outside __init__ writes.', design='4/C20', engine='ast + sa.solver_ir')
 
+CHECKS['C16'] = dict(
+    technique=SOLVER_T + 'placement and exit analysis of the stop check per body path; symbolic evaluation of '
+              'StopCondition.check_condition (purity, argument binding), of the five operator classes (canonical comparison '
+              'guards) and of the three sensors',
+    text='Every stepping iteration with a stop condition evaluates it exactly once, after the instant is computed and recorded, '
+         'and its truth alone decides break/continue; never at t = 0; nothing runs after the loop; check_condition is stateless and '
+         'applies operator(sensor.get_value(), threshold); operators are the five comparisons with the sensor value on the left; '
+         'sensors return the live target attribute.', design='4/C16', engine='sa.solver_ir + sa.sx')
+CHECKS['C17'] = dict(
+    technique='symbolic evaluation of every element class\'s constructor and recorder; advertise-vs-record conditions compared as '
+              'exhaustive truth tables over optional-data atoms; guard-stability (who-may-write) of the data they read; '
+              + SOLVER_T + 'one time append and one unconditional recorder loop over all elements per instant; compute-guard '
+              'implied by record-guard; setter kind checks; reset and export mapping completeness',
+    text='For all six element classes and every subset of optional data: each advertised key receives exactly one sample per '
+         'recorded instant, of the element\'s own attribute, whose setter enforces the kind; derived variables are computed whenever '
+         'they are recorded; reset empties every list with a fresh list. Known finding: WormWheel bending stress depends on the '
+         'mate after construction.', design='4/C17', engine='sa.sx + sa.solver_ir + sa.extract.truth_table')
+
 NOT_APPLICABLE = {
     'C04': 'limit statement (error = O(dt) as dt -> 0) against an analytic oracle; no sound static argument in reach '
            'bounds a global discretisation error. Its code-shape ingredients (consistent first-order integrator, torque '
